@@ -7,7 +7,7 @@ Require Import Floats.SpecFloat.
 Require Import List ZArith NArith Bool Uint63.
 From Flocq Require Import Core BinarySingleNaN.
 From Dasp Require Import Base.Res Base.Float Sample.Rint Sample.ConvSpec Sample.ConvRun Sample.SampleFmt Sample.SampleOps
-  Frame.Frame Frame.FrameOps Frame.ChanIter.
+  Frame.Frame Frame.FrameOps Frame.ChanIter Frame.FrameMut.
 From DaspGen Require Import SampleTable.
 Import ListNotations.
 Open Scope Z_scope.
@@ -29,8 +29,15 @@ Inductive zop :=
 | ZMapBA (fr outs : list Z) | ZMapAB (fr outs : list Z) | ZAddFA (fr other : list Z)
 (* iterator-adaptor script on ONE iterator: kind 0 channels() (by value), 1 channels_ref(), 2 channels_mut();
    script = triples [code; a; b]: 0 next, 1 nth a, 2 skip a then next, 3 step_by a take b, 4 count, 5 last,
-   6 len + size_hint, 7 next_back, 8 rev take a *)
-| ZIter (kind : Z) (fr script : list Z).
+   6 len + size_hint, 7 next_back, 8 rev take a, 9 clone: next and len of the clone *)
+| ZIter (kind : Z) (fr script : list Z)
+(* round 3 (coverage of the whole Frame surface) *)
+| ZSIdentity                               (* <S as Sample>::IDENTITY *)
+| ZNumChannels                             (* <F as Frame>::CHANNELS *)
+| ZChannelMut (fr : list Z) (i v : Z)      (* if let Some(r) = fr.channel_mut(i) { *r = v }  -> flag, frame afterwards *)
+| ZChannelUnchecked (fr : list Z) (i : Z)  (* unsafe { *fr.channel_unchecked(i) }, generated for i < N only *)
+| ZChannelUncheckedMut (fr : list Z) (i v : Z)   (* unsafe { *fr.channel_unchecked_mut(i) = v }, i < N only *)
+| ZChannelsMutWrite (fr news : list Z) (dir : Z). (* for (r, v) in fr.channels_mut()[.rev() if dir = 1].zip(news) { *r = v } *)
 
 (* mode: 0 debug / 1 release;  fmt: SampleFmt.sfmt_code;  n: channel count;  bare: 1 = a bare sample used as a frame *)
 Inductive fcase := FCase (mode fmt n bare : Z) (ops : list zop).
@@ -58,7 +65,7 @@ Fixpoint steps_of (fuel : nat) (l : list Z) : list step :=
     let an := Z.to_nat a in
     (match c with
      | 0 => SNext | 1 => SNth an | 2 => SSkipNext an | 3 => SStepBy an (Z.to_nat b) | 4 => SCount | 5 => SLast
-     | 6 => SLen | 7 => SNextBack | _ => SRevTake an
+     | 6 => SLen | 7 => SNextBack | 8 => SRevTake an | _ => SClonePeek
      end) :: steps_of f r
   | _, _ => []
   end.
@@ -76,6 +83,8 @@ Definition enc_sobs {X} (e : X -> Z) (kind : Z) (s : step) (o : sobs X) : list Z
     end
   | ONat _ => [-8]
   | OUnsupported => [-1]
+  | OPeek o n => ((match o with None => [0] | Some v => [1; e v] end) ++
+                  (match n with Ok n => [znat n] | _ => [-8] end))%list
   end.
 Definition enc_script {X} (e : X -> Z) (kind : Z) (sc : list step) (os : list (sobs X)) : list Z :=
   0 :: List.concat (List.map (fun p => enc_sobs e kind (fst p) (snd p)) (combine sc os)).
@@ -100,6 +109,7 @@ Definition run_sample_op (o : zop) : option (list Z) :=
   | ZSSigned v => Some (obs_res (rmap (fun r => [es r]) (to_signed m f (d v))))
   | ZSFloat v => Some (obs_res (rmap (fun r => [ef r]) (to_float m f (d v))))
   | ZSEquil => Some [0; e (equilibrium_of f)]
+  | ZSIdentity => Some [0; ef (identity_of f)]
   | _ => None
   end.
 
@@ -144,6 +154,16 @@ Definition run_arr_op (o : zop) : list Z :=
     let sc := steps_of (length script) script in
     if kind =? 0 then enc_script e kind sc (fst (channels_script N sc (dl fr)))
     else enc_script e kind sc (fst (run_script_list sc (dl fr)))
+  | ZNumChannels => [0; znat (num_channels N)]
+  | ZChannelMut fr i v =>
+    if i <? 0 then [-1] else
+    let r := channel_mut_write (dl fr) (Z.to_nat i) (d v) in (0 :: zb (fst r) :: el (snd r))
+  | ZChannelUnchecked fr i =>
+    if i <? 0 then [-1] else obs_res (rmap (fun x => [e x]) (get_unchecked (dl fr) (Z.to_nat i)))
+  | ZChannelUncheckedMut fr i v =>
+    if i <? 0 then [-1] else obs_res (rmap el (channel_unchecked_mut_write (dl fr) (Z.to_nat i) (d v)))
+  | ZChannelsMutWrite fr news dir =>
+    0 :: el (if dir =? 0 then overwrite (dl news) (dl fr) else overwrite_back (dl news) (dl fr))
   | _ => [-1]
   end end.
 
@@ -203,6 +223,29 @@ Definition run_bare_op (o : zop) : list Z :=
     match dl fr with
     | [s] => if kind =? 0 then enc_script e kind sc (fst (mono_channels_script sc s))
              else enc_script e kind sc (fst (run_script_list sc [s]))
+    | _ => [-1]
+    end
+  | ZNumChannels => [0; znat mono_num_channels]
+  | ZChannelMut fr i v =>
+    match dl fr with
+    | [s] => if i <? 0 then [-1] else
+             let r := mono_channel_mut_write s (Z.to_nat i) (d v) in [0; zb (fst r); e (snd r)]
+    | _ => [-1]
+    end
+  | ZChannelUnchecked fr i =>
+    match dl fr with
+    | [s] => if i <? 0 then [-1] else obs_res (rmap (fun x => [e x]) (mono_channel_unchecked s (Z.to_nat i)))
+    | _ => [-1]
+    end
+  | ZChannelUncheckedMut fr i v =>
+    match dl fr with
+    | [s] => if i <? 0 then [-1] else
+             obs_res (rmap (fun x => [e x]) (mono_channel_unchecked_mut_write s (Z.to_nat i) (d v)))
+    | _ => [-1]
+    end
+  | ZChannelsMutWrite fr news dir =>
+    match dl fr with
+    | [s] => [0; e (mono_overwrite (dl news) s)]
     | _ => [-1]
     end
   | _ => [-1]
